@@ -34,6 +34,7 @@ class NodeRef:
     # all (episode_return, average_return) pairs consistent with the record: a done step of a
     # stochastic transition does not reveal its successor, so the true reward can be ambiguous
     ret_states: set = field(default_factory=lambda: {(0.0, 0.0)})
+    ret_overflow: bool = False
     # true (un-bootstrapped) reward history of the current rollout, for reports
     history: list = field(default_factory=list)
 
@@ -235,7 +236,12 @@ def check_node_rollout(
                 er2 = (0.0 if node.ep_done else er) + tr_
                 ar2 = alpha * er2 + (1 - alpha) * ar if done else ar
                 nxt.add((round(er2, 9), round(ar2, 9)))
-        node.ret_states = set(sorted(nxt)[:64])
+        if len(nxt) > 512:
+            # too many histories are consistent with the record (many hidden successors): the reference can no longer
+            # enumerate them, so return statistics of this node are not judged any more (never guessed)
+            node.ret_overflow = True
+            nxt = set(sorted(nxt)[:512])
+        node.ret_states = nxt
         node.ep_ret = (0.0 if node.ep_done else node.ep_ret) + c["r"]
         node.ep_len = (0 if node.ep_done else node.ep_len) + 1
         node.alt_ep_ret = (0.0 if node.ep_done else node.alt_ep_ret) + r_st
@@ -405,7 +411,9 @@ def check_logger(res, rec, node: NodeRef, i: int, T: int):
     if not close(rec["log_avg_len"], node.avg_len, rel=1e-5, terms=terms):
         res.fail("C19", "ema_at_episode_end", "average_length", node=i, got=float(rec["log_avg_len"]), expected=node.avg_len)
         ok = False
-    match = any(
+    if node.ret_overflow:
+        res.probes["logger_return_check_skipped_too_many_hidden_successors"] += 1
+    match = node.ret_overflow or any(
         close(rec["log_ep_ret"], er, rel=1e-5, terms=terms) and close(rec["log_avg_ret"], ar, rel=1e-5, terms=terms)
         for (er, ar) in node.ret_states
     )
